@@ -144,7 +144,7 @@ func runCheck(prop, tier string, seed int) int {
 	// lemmas
 	evidenceSpecs = S
 	lemmaObls := lemmaObligations(S, prop)
-	d := &Discharger{Dir: filepath.Join(outDir, "smt"), Timeout: timeout, Workers: 8, All: tier == "thorough"}
+	d := &Discharger{Dir: filepath.Join(outDir, "smt"), Timeout: timeout, Workers: 12, All: tier == "thorough"}
 	d.Run(all)
 	// an obligation without a definite answer gets a second, unhurried attempt before it counts as
 	// failed: a loaded machine must not turn into an alarm
@@ -163,6 +163,13 @@ func runCheck(prop, tier string, seed int) int {
 					o.Res.Solver += " (second attempt, 60 s)"
 					fmt.Printf("note: %s needed the second attempt (%.1fs)\n", o.Name, o.Res.Secs)
 				}
+			}
+		}
+	}
+	if os.Getenv("GOVC_TIMES") != "" {
+		for _, o := range all {
+			if o.Wall > 3 {
+				fmt.Printf("time: %5.1fs %s (%s, %s)\n", o.Wall, o.Name, o.Res.Answer, o.Res.Solver)
 			}
 		}
 	}
